@@ -359,7 +359,9 @@ impl Universe {
 				node_id_2: NodeId::from_pubkey(&PublicKey::from_secret_key(&u.secp, n[1])),
 				bitcoin_key_1: NodeId::from_pubkey(&PublicKey::from_secret_key(&u.secp, b[0])),
 				bitcoin_key_2: NodeId::from_pubkey(&PublicKey::from_secret_key(&u.secp, b[1])),
-				excess_data: Vec::new(),
+				// channel 2's announcement carries more unknown trailing data than LDK relays: it must be
+				// applied but not retained as `announcement_message`
+				excess_data: if scid == s2 { vec![0x55; 1025] } else { Vec::new() },
 			};
 			let c = enc_ca(&unsigned);
 			ChannelAnnouncement {
@@ -435,7 +437,8 @@ impl Universe {
 				htlc_maximum_msat: p.hmax,
 				fee_base_msat: p.fee,
 				fee_proportional_millionths: 10 * p.fee,
-				excess_data: Vec::new(),
+				// u2c2 (fee 8): applied, but `last_update_message` not retained
+				excess_data: if p.fee == 8 { vec![0x66; 1025] } else { Vec::new() },
 			};
 			let c = enc_cu(&unsigned);
 			ChannelUpdate { signature: sign(&u.secp, &c, signer), contents: unsigned }
@@ -475,6 +478,8 @@ impl Universe {
 		u.push_cu("u1a_chain", "invalid:cu_wrong_chain", true, m);
 		let m = cu(&u, &U { scid: s1, dir: 0, dt: 34, fee: 15, hmax: hm1 + 1, disabled: false }, &ka, chain_hash);
 		u.push_cu("u1a_overcap", "invalid:cu_htlc_max_above_capacity", true, m);
+		let m = cu(&u, &U { scid: s1, dir: 0, dt: 36, fee: 17, hmax: MAX_VALUE_MSAT + 1, disabled: false }, &ka, chain_hash);
+		u.push_cu("u1a_overmax", "invalid:cu_htlc_max_above_total_supply", true, m);
 		let m = cu(&u, &U { scid: s9, dir: 0, dt: 35, fee: 16, hmax: 1000, disabled: false }, &ka, chain_hash);
 		u.push_cu("u9_unknown", "invalid:cu_unknown_scid", true, m);
 
@@ -488,7 +493,8 @@ impl Universe {
 				alias: NodeAlias([tag; 32]),
 				addresses: vec![SocketAddress::TcpIpV4 { addr: [127, 0, 0, tag], port: 9000 + tag as u16 }],
 				excess_address_data: Vec::new(),
-				excess_data: Vec::new(),
+				// na_c2 (tag 6): applied as `NodeAnnouncementInfo::Local`
+				excess_data: if tag == 6 { vec![0x77; 1025] } else { Vec::new() },
 			};
 			let c = enc_na(&unsigned);
 			NodeAnnouncement { signature: sign(&u.secp, &c, k), contents: unsigned }
